@@ -322,7 +322,8 @@ def xattach(ctx, avh, tier, prop_fail, known_hits):
                "name with another element type: the target file re-loads with only RequiredAttributeMissing and the same content; only the recorded finding "
                "move-keeps-source-type = the attached element kept a type of another DATATYPE)", done and not other, "\n".join(other[:3]) or "sweep incomplete")
     for l in other[:5]:
-        prop_fail.append({"kind": "xattach", "line": l, "how_to_replay": "harness/target/debug/avh range xattach work/c07/dump thorough 0 1 | grep '%s'" % " ".join(l.split()[1:8])})
+        prop_fail.append({"kind": "xattach", "line": l, "how_to_replay": "./check C07 --replay <this file>   (= harness/target/debug/avh range xattach work/c07/dump thorough 0 1 %s | grep '%s')"
+                          % (re.search(r" v=(\d+) ", l).group(1), " ".join(l.split()[1:8]))})
 
 
 def known_findings(ctx, avh, prop_fail, known_hits):
@@ -432,7 +433,9 @@ def run(tier, seed):
              "base+2 (quick 3x3, thorough 12x12): listing, range of EVERY listed name, creation at EVERY position 0..len+1, default creation, "
              "spec order of every insertion (independent reading), reload after creation; histories: generic tree scripts (create/at/named/copy "
              "incl. across versions and models/move/remove/set data/attributes/files) with reload + order oracle after every operation; "
-             "all 532 cross-version copy combinations; distinct_nontrivial = (type, version, content) scenarios swept",
+             "all 532 cross-version copy combinations; attach sweep: per version (quick: newest, oldest, median; thorough: all) every name that two parent types list with "
+             "different child ElementTypes x every ordered pair of child types x {move in one model, move from another model, copy}: reload of the target file; "
+             "distinct_nontrivial = (type, version, content) scenarios swept",
         trusted_base=["Coq 8.16.1 kernel incl. vm_compute", "translator/spec.py, specwf.py (copy literals; lengths asserted)",
                       "extraction (ExtrOcamlBasic only) + ocaml/range_driver.ml, tree_driver.ml for the tie",
                       "harness/src/range.rs (sweep, oracles; its independent reading of the dumped tables is itself compared with Range.orderedb in the sweep)",
@@ -442,16 +445,27 @@ def run(tier, seed):
                      "the order invariant is proved per operation (create, named, get_or_create, copy, move, remove) for the version in force when the operation runs; "
                      "it is FALSE for the current min_version after a file of another version joins (C07_order_history_refuted = finding mixed-version-files); "
                      "copy needs Closed w (part of C03's invariant); move: the combination `parent link names h but models differ` is excluded",
-                     "the reload clause: proved up to the bridge WorldOK -> StrictValid-minus-required-attributes of the per-file projection and its composition with C01 under "
-                     "the hypothesis RootCanon; RootCanon of the projection and `f_serialize writes serialize_file of the projection` are not derived; "
-                     "on the implementation the clause is checked by oracle, recorded exceptions are the known findings printed"],
+                     "the reload clause: C07_reload_clean_world is about the bytes f_serialize writes (via C10_file_self_contained; Project.proj = Files.fproj) and has hypotheses on the "
+                     "WORLD only: WorldOK (structure: order invariant + stored type = resolved type), WorldCanon/RootHeader (value level: comments and names that read back, canonical value "
+                     "spellings, every required attribute present, non-blank text, layout of the kept content, header attributes of the version) and C10's NoHollow. "
+                     "NOT derived: that the editing calls maintain WorldCanon (they do not: the recorded findings string-blank-or-empty, root-namespace-editable and the allowed "
+                     "RequiredAttributeMissing are its failures) and the exact-type clause of WorldOK after move/copy (finding move-keeps-source-type; under attach_ok only the "
+                     "datatype is kept, for which C07_move/copy_typed_loader_accepts give the structural acceptance LoaderWalk, not equality of the re-loaded tree); "
+                     "on the implementation the clause is checked by oracle, recorded exceptions are the known findings printed",
+                     "attach theorems: PairOK T is C17's table fact ([F] for the current tables: Tree/CompatReal.v PairOK_real, not re-proved in C07's closure), TypedU is C17's history invariant; "
+                     "move: source parent <> destination (same parent is a reposition: C07_order_inv_move part 1)"],
         extra={"theorem_kinds": {"C07_SpecWF_real": "F", "C07_range_exact": "U", "C07_range_complete": "U", "C07_range_err": "U", "C07_range_bounds": "U",
                                  "C07_create_iff_range": "U", "C07_create_err": "U", "C07_create_named_only_in_range": "U", "C07_loader_checks_quiet": "U", "C07_create_named_iff": "U",
                                  "C07_order_inv_named": "U", "C07_order_inv_copy": "U", "C07_order_inv_move": "U",
                                  "C07_reload_bridge": "U", "C07_reload_clean_composed": "U (hypotheses: RootCanon of C01, not derived)",
                                  "C07_worldok_nonvacuous": "F", "C07_order_history_refuted": "F-witness", "C07_order_history_was_ordered": "F", "C07_allowed_iff_range": "U", "C07_allowed_iff": "U",
                                  "C07_order_inv_partial": "P", "C07_ordered_loader_accepts": "U", "C07_loader_enforces_order_refuted": "F-witness",
-                                 "C07_copy_resolves_type_refuted": "F-witness", "C07_ordered_nonvacuous": "F"}})
+                                 "C07_copy_resolves_type_refuted": "F-witness", "C07_ordered_nonvacuous": "F",
+                                 "C07_move_resolves_type_refuted": "F-witness (history built with the permissive name validator ok_check)",
+                                 "C07_attach_loader_walk": "U", "C07_move_typed_loader_accepts": "U (hypotheses attach_ok, PairOK, TypedU of C17)",
+                                 "C07_copy_typed_loader_accepts": "U (hypotheses attach_ok, PairOK, TypedU of C17; Closed of C13)",
+                                 "C07_proj_is_fproj": "U", "C07_reload_clean_file": "U (hypotheses NoHollow of C10, RootCanon of C01)",
+                                 "C07_projection_canonical": "U", "C07_reload_clean_world": "U (hypotheses on the world only: WorldOK, WorldCanon, RootHeader, NoHollow)"}})
 
 
 def replay(path):
@@ -495,7 +509,8 @@ def replay(path):
         return 1 if bad else 0
     if r.get("kind") == "xattach":
         want = " ".join(r["line"].split()[1:8])
-        rc, out, _ = lib.run([avh, "range", "xattach", DUMP, "thorough", "0", "1"], cwd=CW, timeout=3000)
+        ver = re.search(r" v=(\d+) ", r["line"]).group(1)
+        rc, out, _ = lib.run([avh, "range", "xattach", DUMP, "thorough", "0", "1", ver], cwd=CW, timeout=3000)
         hit = [l for l in out.split("\n") if l.startswith("XATTACH ") and want in l]
         print("\n".join(hit[:5]))
         bad = [l for l in hit if classify_xattach(l) is None]
